@@ -10,7 +10,7 @@ class P:
     rule = ("(a) histories of <= 10 parse / exec calls over <= 3 contexts in one process, with programs that assign, fail midway and "
             "reuse the same names; (a') 100 rounds per process of a registration racing six first uses of that spelling on other threads, each followed by a "
             "sequential use; (b) the same calls issued concurrently, one thread per context, released together; (c) a parsed program "
-            "evaluated repeatedly on equal contexts. Oracle: every call's result and final context equal those of the reference semantics "
+            "evaluated repeatedly on equal contexts; (d) processes whose first engine call re-binds a built-in name (function, infix, prefix, postfix), then parse and evaluate: the registration stays in force. Oracle: every call's result and final context equal those of the reference semantics "
             "applied to that context's own calls alone (other contexts' calls and all parses are invisible); repeated evaluation gives "
             "identical results. Non-trivial = distinct history with >= 2 contexts.")
     assumptions = ["distinct Context objects per thread (as the property states)"]
@@ -73,6 +73,24 @@ class P:
                     t = tree(rng.choice([2, 3]))
                     ops_.append("PARSE:" + hx(progs.render_min(t, PT2))); wants.append(progs.to_proto(t))
             items.append((" ".join(ops_), ("regseq", None, wants, 0)))
+        # the FIRST thing a process does with the engine is a registration that re-binds a BUILT-IN name; what is parsed (the
+        # built-ins are installed on first use) or evaluated afterwards must not undo it: registrations made so far decide
+        b_in = base
+        for name, kind, prog in (("sum", "F", "sum(1, 2)"), ("max", "F", "max(1, 2)"), ("min", "F", "[min(3)]"), ("mul", "F", "1 + mul(2, 3)"),
+                                 ("+", "I", "1 + 2"), ("*", "I", "2 * 3"), ("==", "I", "1 == 1"), ("in", "I", "1 in [1]"), ("&&", "I", "true && true"),
+                                 ("beginWith", "I", "'ab' beginWith 'a'"), ("-", "P", "-5"), ("!", "P", "!true"), ("not", "P", "not true"),
+                                 ("++", "S", "5 ++"), ("--", "S", "5 --")):
+            if kind == "I" and name not in b_in: continue
+            if kind == "F": reg = "REGF:%s:61" % hx(name)
+            elif kind == "P": reg = "REGP:%s:61" % hx(name)
+            elif kind == "S": reg = "REGS:%s:61" % hx(name)
+            else: reg = "REGI:%s:%x:0:%d:61" % (hx(name), b_in[name][0], 1 if b_in[name][1] else 0)
+            hv = "s(%s)" % hx("h61")
+            wrapped = "s(%s)" % hx("h61")
+            for between in ([], ["PARSE:" + hx("1 + 1")], ["EXEC:2:" + hx("7 * 6")], ["@t/PARSE:" + hx("a")], ["PARSE:" + hx(prog)]):
+                ops = ["H:61:rs(%s)" % hx("h61"), reg] + between + ["EXEC:1:" + hx(prog), "PARSE:" + hx("0"), "EXEC:3:" + hx(prog)]
+                want = [None, None] + [None] * len(between) + ["HANDLER", None, "HANDLER"]
+                items.append((" ".join(ops), ("first-reg", None, want, 0)))
         # soak: hundreds of failing evaluations of different depths on ONE persistent thread, then ordinary programs
         fails = ["1/0", "[1, [2, [3/0]]]", "nosuchfn()", "x = [a, [a, [a / 0]]]; x", "1 + true", "{1: [2, {3: 1 % 0}]}", "f(", "min()"]
         for rep in range(1 if tier == "quick" else 6):
@@ -194,6 +212,12 @@ class P:
                     d = values.split_exec(full[i + 1])
                     if d["cls"] != "OK" or d["value"] != calls:
                         return "violates", "after the registration has returned and the racing parses are over, the operator is not in force: %s" % full[i + 1][:60]
+            return "ok", ""
+        if kind == "first-reg":
+            for want, o in zip(calls, outs):
+                if want != "HANDLER": continue
+                if ":L[61(" not in o:      # the registered handler must have been called
+                    return "violates", "a built-in name re-bound by the first call the process makes is not in force after a later parse: " + o[:60]
             return "ok", ""
         if kind == "regseq":
             for want, o in zip(calls, outs):
